@@ -278,6 +278,20 @@ AddSuccess(c, a, f) ==
   /\ Begin(c, "ok", [op |-> "AddSuccess", c |-> c, a |-> a, f |-> f])
   /\ UNCHANGED <<cur, blocks, born, base, nuuid, ids, dests, anyAdded, buffer, gf, reg, offered, work, ret, nfaults, nmsgs, nodes, dev, gh>>
 
+\* logging through the standard library bridge (eliot.stdlib.EliotHandler): one eliot:stdlib message in the current
+\* context, followed by a traceback message when the record carries exc_info
+StdlibLog(c, withexc) ==
+  /\ CanLog(c) /\ Room
+  /\ (cur[c] # 0 => Len(acts[cur[c]].lv) < MaxDepth + 1)
+  /\ LET r == LogAllocMsg(c, "eliot:stdlib", {"log_level", "logger", "message"}, "") IN
+     /\ acts' = r[1] /\ nuuid' = r[2]
+     /\ work' = IF withexc THEN <<[t |-> "tbmsg", o |-> "exc"], WriteItem(r[3])>> ELSE <<WriteItem(r[3])>>
+  /\ nodes' = AddNode(NodeOfCur(c), "msg", "eliot:stdlib", "")
+  /\ gh' = IF withexc THEN [gh EXCEPT !.ntb = @ + 1] ELSE gh
+  /\ nmsgs' = nmsgs + 1
+  /\ Begin(c, "ok", [op |-> "StdlibLog", c |-> c, withexc |-> withexc])
+  /\ UNCHANGED <<cur, blocks, born, base, ids, dests, anyAdded, buffer, gf, reg, offered, ret, nfaults, dev>>
+
 \* write_traceback() inside an except block
 WriteTraceback(c, o) ==
   /\ CanLog(c) /\ Room
@@ -583,6 +597,7 @@ Next ==
        \/ \E o \in Outcomes : (o \in ExtOutcomes => F("ext")) /\ Exit(c, o)
        \/ \E ty \in MsgTypes : (ty \in {"M", "N", "N0"} => F("typed")) /\ (ty = "h" => F("hostile")) /\ Log(c, ty)
        \/ F("raw") /\ RawWrite(c)
+       \/ F("stdlib") /\ \E b \in BOOLEAN : StdlibLog(c, b)
        \/ F("logcall") /\ \E o \in {"ok", "exc"} : LogCall(c, o)
        \/ F("tb") /\ \E o \in {"exc", "x1"} : (o = "x1" => F("ext")) /\ WriteTraceback(c, o)
        \/ F("ext") /\ \E k \in {"E0", "E1", "E2"} : Register(c, k)
